@@ -117,9 +117,9 @@ def _param_dependent_stopgrads(term, pnames):
 
 # ------------------------------------------------------------------ C14
 
-def grad_faithful_ob(crit, stepwise, Hn, eval_mode=False, second_call=False, module_output=False):
-    tag = '%s,%s,H=%d%s%s%s' % (crit, 'prev_hedge' if stepwise else 'stateless', Hn, ',eval-mode' if eval_mode else '', ',second call' if second_call else '',
-                                ',prev_hedge through a parameter-free ModuleOutput' if module_output else '')
+def grad_faithful_ob(crit, stepwise, Hn, eval_mode=False, second_call=False, module_output=False, band=False):
+    tag = '%s,%s,H=%d%s%s%s%s' % (crit, 'prev_hedge' if stepwise else 'stateless', Hn, ',eval-mode' if eval_mode else '', ',second call' if second_call else '',
+                                  ',prev_hedge through a parameter-free ModuleOutput' if module_output else '', ',no-transaction-band model (Clamp with parameter-dependent bounds)' if band else '')
 
     def check():
         t0 = time.time()
@@ -146,6 +146,23 @@ def grad_faithful_ob(crit, stepwise, Hn, eval_mode=False, second_call=False, mod
                             return Tensor.fresh(lambda idx: tm.app('G', *[rd(idx[:-1] + (tm.const(k_, 'I'),)) for k_ in range(Fn)]), x._shape[:-1] + (1,), x.dtype, x.deps)
                     feats = ['log_moneyness', ModuleOutput(ParamFree(), inputs=['prev_hedge', 'time_to_maturity'])]
                 model = H.UserModel.make(Hn, record=rec)
+                if band:
+                    # a no-transaction-band network: the previous hedge clamped into [lo, lo + width], both produced by a parametric net
+                    import torch
+
+                    class Band(torch.nn.Module):
+                        def __init__(self):
+                            super().__init__()
+                            self.net = H.UserModel.make(2)
+                            self.clamp = pnn.Clamp()
+
+                        def forward(self, x):
+                            prev = x[..., [-1]]
+                            lw = self.net(x[..., :-1])
+                            lo = lw[..., [0]]
+                            hi = lo + lw[..., [1]].square()
+                            return self.clamp(prev, lo, hi)
+                    model = Band()
                 hedger = pnn.Hedger(model, feats, criterion=mk_criterion(crit))
                 hl = None
                 if Hn >= 2:
@@ -177,7 +194,7 @@ def grad_faithful_ob(crit, stepwise, Hn, eval_mode=False, second_call=False, mod
             if cut:
                 return Verdict('refuted', 'ghost connectivity', time.time() - t0, 'a parameter-dependent part of the loss is cut from the graph: %s' % tm.show(cut[0])[:300],
                                witness={'cut': tm.show(cut[0])[:400]}, sample=sample, replay=_replay_grad())
-            if stepwise and inputs and not module_output:
+            if stepwise and inputs and not module_output and not band:
                 first = inputs[0]
                 # the zero prev_hedge at step 0 must be a fresh leaf: no graph from an earlier run
                 if first.deps - frozenset(pnames) or any(q in first.deps for q in pnames):
@@ -257,6 +274,21 @@ und = BrownianStock(sigma=0.3, dt=0.01, cost=1e-3, dtype=torch.float64); d = Eur
 mo = ModuleOutput(torch.nn.Tanh(), inputs=["prev_hedge", "time_to_maturity"])
 hedger = pnn.Hedger(torch.nn.Sequential(torch.nn.Linear(3, 4), torch.nn.Tanh(), torch.nn.Linear(4, 1)).double(), ["log_moneyness", mo], criterion=pnn.EntropicRiskMeasure())
 fd_check(hedger, d, ("module-output", "train"))
+# a no-transaction-band network: previous hedge clamped between parameter-dependent bounds
+class Band(torch.nn.Module):
+    def __init__(self):
+        super().__init__()
+        self.net = torch.nn.Sequential(torch.nn.Linear(2, 4), torch.nn.Tanh(), torch.nn.Linear(4, 2)).double()
+        self.clamp = pnn.Clamp()
+    def forward(self, x):
+        prev = x[..., [-1]]; lw = self.net(x[..., :-1]); lo = lw[..., [0]]; hi = lo + lw[..., [1]].square()
+        return self.clamp(prev, lo, hi)
+und = BrownianStock(sigma=0.3, dt=0.01, cost=1e-3, dtype=torch.float64); d = EuropeanOption(und, maturity=0.08); d.simulate(n_paths=16)
+hedger = pnn.Hedger(Band(), ["log_moneyness", "time_to_maturity", "prev_hedge"], criterion=pnn.EntropicRiskMeasure())
+try:
+    fd_check(hedger, d, ("band", "train"))
+except Exception as e:
+    bad.append(("band", "backward failed: " + type(e).__name__))
 # a criterion with its own trainable parameter: evaluation-only loss must carry no graph
 from pfhedge.nn.modules.loss import OCE
 und = BrownianStock(dtype=torch.float64); d = EuropeanOption(und)
@@ -286,6 +318,8 @@ def c14_obligations(seed, tier='quick'):
     obs.append(grad_faithful_ob('entropic_risk', True, 1, second_call=True))
     obs.append(grad_faithful_ob('expected_shortfall', False, 1, eval_mode=True))
     obs.append(grad_faithful_ob('entropic_risk', True, 1, module_output=True))
+    obs.append(grad_faithful_ob('entropic_risk', True, 1, band=True))
+    obs.append(grad_faithful_ob('expected_shortfall', True, 1, band=True))
     obs.append(no_graph_ob('price'))
     obs.append(no_graph_ob('compute_loss(enable_grad=False)'))
     # a criterion that owns a trainable parameter (OCE's w): evaluation-only quantities must still carry no graph
